@@ -11,9 +11,9 @@ from vlib.runner import RAISED, Outcome, Part
 
 ID = "C16"
 RULE = (
-    "Hypothesis-generated matrices = honest rows (Gaussian or half-integer grid, scale 10^[-3,3]) with q <= b "
+    "Hypothesis-generated matrices = honest rows (Gaussian or half-integer grid, scale 10^[-3,3], optionally sharing a common offset of 1e2 / 1e4 x scale) with q <= b "
     "(resp. f) rows replaced at drawn positions by corrupted values (random/constant/copies/equal, magnitude up to "
-    "1e12 x honest scale), all admissible b with m >= 2b+1 and (f,k) with m >= f+3, m >= k, m <= 9, n <= 6, float32 "
+    "1e12 x honest scale), all admissible b with m >= 2b+1 and (f,k) with m >= f+3, m >= k, m <= 9 (a quarter of the cases: 20-40 more rows and n in {16, 64}), n <= 6, float32 "
     "and float64; plus too-small matrices that must be rejected. Oracles: NumPy transcription of the definitions "
     "(TrimmedMean value + [min,max]-of-untouched-rows bound; Krum: weights are 1/k on exactly k rows validated "
     "against float64 reference scores with a tie-tolerant predicate, output = plain average of the selected rows). "
@@ -57,14 +57,17 @@ def _case(draw):
         return {"kind": "reject", "dtype": dtype, "J": J.tolist(), **params}
     sig_e = draw(st.integers(-3, 3))
     sigma = 10.0**sig_e
+    big_m = draw(st.sampled_from([False, False, False, True]))
+    if big_m:
+        n = draw(st.sampled_from([n, 16, 64]))
     if kind == "tm":
         b = draw(st.integers(0, 4))
-        m = draw(st.integers(2 * b + 1, 2 * b + 1 + draw(st.integers(0, 4))))
+        m = draw(st.integers(2 * b + 1, 2 * b + 1 + draw(st.integers(0, 4)))) + (draw(st.integers(20, 40)) if big_m else 0)
         qmax = b
         params = {"b": b}
     else:
         f = draw(st.integers(0, 4))
-        m = draw(st.integers(f + 3, f + 3 + draw(st.integers(0, 4))))
+        m = draw(st.integers(f + 3, f + 3 + draw(st.integers(0, 4)))) + (draw(st.integers(20, 40)) if big_m else 0)
         k = draw(st.integers(1, m))
         qmax = f
         params = {"f": f, "k": k}
@@ -72,6 +75,9 @@ def _case(draw):
         H = rng.standard_normal((m, n)) * sigma
     else:
         H = rng.integers(-4, 5, size=(m, n)) / 2.0 * sigma
+    offset_e = draw(st.sampled_from([None, None, 2, 4]))
+    if offset_e is not None:
+        H = H + 10.0**offset_e * sigma * np.sign(rng.standard_normal(n))  # honest rows share a large common offset
     q = draw(st.integers(0, qmax))
     pos = sorted(rng.choice(m, size=q, replace=False).tolist())
     J = H.copy()
@@ -182,6 +188,8 @@ def run_case(case) -> Outcome:
     if ok_w:
         scores = refs.krum_scores(J, f)
         kth = np.sort(scores)[k - 1]
+        # differences of nearby floats are exact (Sterbenz), so distances computed from differences carry only
+        # (n+2) eps relative error whatever common offset the rows share
         tol = 50 * (n + m) * eps
         must = set(np.nonzero(scores < kth * (1 - tol))[0].tolist())
         may_not = set(np.nonzero(scores > kth * (1 + tol))[0].tolist())
